@@ -161,7 +161,7 @@ HelperProgs == <<
      {"__privateWrapper"}, {}, {}),
   HP("super", "js", "class Q extends a { async m() { return super.x; } async n() { super.y = 1; } async o() { super.z++; } } b(Q);",
      {"async-await"}, {}, {}, FALSE, {"__async", "__superGet", "__superSet", "__superWrapper"}, {}, {}),
-  HP("template", "js", "b(a?.c`x${d}`);", {"optional-chain"}, {}, {}, FALSE, {"__template"}, {}, {}),
+  HP("template", "js", "b((a?.c)`x${d}`);", {"optional-chain"}, {}, {}, FALSE, {"__template"}, {}, {}),
   HP("using", "js", "{ using u1 = a(); b(u1); } async function q() { await using u2 = a(); b(u2); } b(q);", {"using"}, {}, {}, FALSE,
      {"__using", "__callDispose"}, {}, {"async-await"}),
   HP("decorators", "js", "@a class Q1 { @b m() {} @b accessor x = 1; @b static y = 2; } b(Q1);", {"decorators"}, {}, {}, FALSE,
